@@ -53,18 +53,12 @@ func c07Store(c *ctx, pr *Protocol) {
 	// conditions controlling the stores
 	bad := ""
 	n := 0
-	for _, b := range sm.Blocks {
-		for _, in := range b.Instrs {
-			st, ok := in.(*ssa.Store)
-			if !ok {
-				continue
-			}
-			ia, ok := st.Addr.(*ssa.IndexAddr)
-			if !ok || !contains(pr.Arrays, core.LastFields(ia.X, 1)) {
-				continue
-			}
+	for _, as := range messageArrayStores(pr, sm) {
+		{
+			ia := as.IA
 			n++
-			for _, f := range core.FactsAt(b) {
+			// the conditions under which the store itself executes (not only those selecting the slot)
+			for _, f := range core.FactsAt(as.Store.Block()) {
 				if f.If == nil {
 					continue
 				}
